@@ -680,7 +680,9 @@ def gen_pow10(lines):
     lines.append("def pow10Declared : Nat := %d" % declared)
     # --- f64_from_parts constants
     body = fn_body(t, r'#\[cfg\(not\(feature\s*=\s*"float_roundtrip"\)\)\]\s*fn f64_from_parts\b[^{]*\{')
-    big, step = 0, 0
+    # when the construct cannot be read the tie is reported broken (miss); the model then keeps the values of the transcribed
+    # code (308 / 308) rather than 0 / 0, with which its stepping loop would make no progress
+    big, step = 308, 308
     if body is None:
         miss("pow10.from_parts", "non-roundtrip f64_from_parts not found")
     else:
